@@ -26,15 +26,18 @@ type frame struct {
 }
 
 type connPlan struct {
-	Frames      []frame `json:"frames"`
-	ClientReads bool    `json:"client_reads"`
-	End         string  `json:"end"`       // local-close | peer-close | reset | silent
-	EndAfter    int     `json:"end_after"` // yields before the end event
-	ServerSends []int   `json:"server_sends"`
-	SecondEnd   string  `json:"second_end"`  // "" or another terminating event racing with the first
-	IdleMs      int     `json:"idle_ms"`     // the server-side actor lets this much simulated time pass before its Sends (0 = none)
-	Direct      bool    `json:"direct"`      // the session is started by the application itself (NewSession(mgr, conn).Start()), not by the accept loop
-	CloseFails  bool    `json:"close_fails"` // the server side's conn.Close() returns an error (the connection is closed all the same)
+	Frames        []frame `json:"frames"`
+	ClientReads   bool    `json:"client_reads"`
+	End           string  `json:"end"`       // local-close | peer-close | reset | silent
+	EndAfter      int     `json:"end_after"` // yields before the end event
+	ServerSends   []int   `json:"server_sends"`
+	SecondEnd     string  `json:"second_end"`     // "" or another terminating event racing with the first
+	IdleMs        int     `json:"idle_ms"`        // the server-side actor lets this much simulated time pass before its Sends (0 = none)
+	Direct        bool    `json:"direct"`         // the session is started by the application itself (NewSession(mgr, conn).Start()), not by the accept loop
+	CloseFails    bool    `json:"close_fails"`    // the server side's conn.Close() returns an error (the connection is closed all the same)
+	OwnHandler    bool    `json:"own_handler"`    // the session gets a handler of its own (UpdateHandler): reads and the exit callback go through it
+	DeadlineFault int     `json:"deadline_fault"` // 1: the server side's next SetWriteDeadline fails once; 2: its next SetReadDeadline fails once (armed when the actor starts)
+	ReadDelayMs   int     `json:"read_delay_ms"`  // a reading peer starts reading only after this much simulated time (0 = at once): writes time out meanwhile
 }
 
 type C16Scenario struct {
@@ -73,6 +76,13 @@ func drawC16(rt *rapid.T) interface{} {
 		p.IdleMs = rapid.SampledFrom([]int{0, 0, 0, 10, 100, 10000, 30000}).Draw(rt, "idle")
 		p.CloseFails = rapid.IntRange(0, 5).Draw(rt, "closefails") == 0
 		p.Direct = rapid.IntRange(0, 5).Draw(rt, "direct") == 0
+		p.OwnHandler = rapid.IntRange(0, 3).Draw(rt, "ownhandler") == 0
+		if p.ClientReads && rapid.IntRange(0, 5).Draw(rt, "latereader") == 0 {
+			p.ReadDelayMs = rapid.SampledFrom([]int{20, 100, 9000, 40000}).Draw(rt, "readdelay")
+		}
+		if rapid.IntRange(0, 7).Draw(rt, "dlfault") == 0 {
+			p.DeadlineFault = rapid.IntRange(1, 2).Draw(rt, "dlkind")
+		}
 		if rapid.IntRange(0, 4).Draw(rt, "second") == 0 {
 			p.SecondEnd = rapid.SampledFrom([]string{"local-close", "peer-close", "reset"}).Draw(rt, "end2")
 		}
@@ -105,11 +115,15 @@ type connState struct {
 	clientErr    error
 	handlerEnded string
 	faulty       bool // something other than the single local close may have cut the stream
+	closeReq     bool // the application has called Close on the running session
+	ownInstalled bool // UpdateHandler has been called for the session
 }
 
 type handler struct {
 	s     *simrt.Sim
 	conns map[string]*connState
+	own   *handler // the handler sessions with a handler of their own are switched to (nil in that handler itself)
+	isOwn bool
 }
 
 func (h *handler) of(s *stcp.Session) *connState { return h.conns[s.RemoteAddr()] }
@@ -124,6 +138,13 @@ func (h *handler) Read(s *stcp.Session) error {
 	if cs.sess == nil {
 		cs.sess, cs.started = s, true
 		h.s.Logf("session started %s", s.RemoteAddr())
+		if cs.plan.OwnHandler && h.own != nil {
+			s.UpdateHandler(h.own)
+			cs.ownInstalled = true
+			h.s.Count("session-with-own-handler")
+		}
+	} else if cs.plan.OwnHandler && !h.isOwn {
+		h.s.Fail("own-handler-bypassed", "session %s was given a handler of its own, a later read still went to the manager's handler", s.RemoteAddr())
 	}
 	var hdr [2]byte
 	if err := s.Read(hdr[:]); err != nil {
@@ -157,6 +178,11 @@ func (h *handler) OnExit(s *stcp.Session) {
 		return
 	}
 	cs.exits++
+	if cs.ownInstalled && cs.plan.Direct && !h.isOwn {
+		// (for sessions that switch handlers in their first read the exit path may legitimately have picked the manager's
+		// handler just before the switch: only a handler installed before Start is judged)
+		h.s.Fail("exit-callback-to-wrong-handler", "session %s was started with a handler of its own, the exit callback went to the manager's handler", s.RemoteAddr())
+	}
 	h.s.Logf("OnExit %s (#%d)", s.RemoteAddr(), cs.exits)
 	if cs.exits > 1 {
 		h.s.Fail("exit-callback-twice", "OnExit ran %d times for session %s", cs.exits, s.RemoteAddr())
@@ -169,6 +195,21 @@ func runC16(t *testing.T, sci interface{}, keepLog bool) *hx.Outcome {
 	var maxSeen int32
 	started := false
 	anyDirect := false
+	var states []*connState
+	// a clean local close: nothing but the application's Close ends the session and the peer reads all along
+	clean := func(cs *connState) bool {
+		p := cs.plan
+		return p.End == "local-close" && p.SecondEnd == "" && p.ClientReads && p.ReadDelayMs == 0 && p.DeadlineFault == 0 && p.IdleMs < sc.ReadTO && cs.handlerEnded == ""
+	}
+	advance := func(s *simrt.Sim, to time.Duration) {
+		// every goroutine is blocked and the clock is about to move: a session whose application has called Close, whose
+		// peer reads and which nothing else disturbs must be over by now - it must not need a read or write timeout to end
+		for ci, cs := range states {
+			if cs.closeReq && cs.exits == 0 && clean(cs) {
+				s.Fail("local-close-waits-for-a-timeout", "client-%d: the application called Close on the session, the peer reads, yet the session is still not over when nothing can run any more without the clock advancing (to %v)", ci, to)
+			}
+		}
+	}
 	observe := func(s *simrt.Sim) {
 		if !started {
 			return
@@ -188,6 +229,7 @@ func runC16(t *testing.T, sci interface{}, keepLog bool) *hx.Outcome {
 		nw := simnet.NewNet(s, sc.BufSize)
 		defer nw.Uninstall()
 		h := &handler{s: s, conns: map[string]*connState{}}
+		h.own = &handler{s: s, conns: h.conns, isOwn: true}
 		mgr = stcp.NewSessionMgr(h, stcp.WithReadTimeout(time.Duration(sc.ReadTO)*time.Millisecond), stcp.WithWriteTimeout(time.Duration(sc.WriteTO)*time.Millisecond))
 		srv := stcp.NewTCPSrv("sim:1", mgr)
 		errCh := srv.Start(stcp.WithMaxConn(sc.MaxConn), stcp.WithAccDelay(time.Millisecond), stcp.WithAccMaxDelay(4*time.Millisecond), stcp.WithAccMaxRetry(10))
@@ -200,7 +242,6 @@ func runC16(t *testing.T, sci interface{}, keepLog bool) *hx.Outcome {
 			ln.InjectAcceptError(&simnet.Err{Msg: "accept: too many open files (injected)", Temp: true})
 		}
 		var all []*simrt.Task
-		var states []*connState
 		for ci, plan := range sc.Conns {
 			ci, plan := ci, plan
 			for g := 0; g < sc.DialGaps[ci]; g++ {
@@ -214,7 +255,13 @@ func runC16(t *testing.T, sci interface{}, keepLog bool) *hx.Outcome {
 				var srvEnd *simnet.SimConn
 				cs.client, srvEnd = nw.Pipe(name)
 				anyDirect = true
-				stcp.NewSession(mgr, srvEnd).Start()
+				ds := stcp.NewSession(mgr, srvEnd)
+				if plan.OwnHandler {
+					ds.UpdateHandler(h.own)
+					cs.ownInstalled = true
+					s.Count("session-with-own-handler")
+				}
+				ds.Start()
 				s.Count("session-started-directly")
 			} else {
 				cs.client = ln.Dial(name)
@@ -224,7 +271,7 @@ func runC16(t *testing.T, sci interface{}, keepLog bool) *hx.Outcome {
 			}
 			// an idle period longer than the read timeout ends the session by itself: then the stream may be cut short
 			idleEnds := plan.IdleMs >= sc.ReadTO
-			cs.faulty = plan.End != "local-close" || plan.SecondEnd != "" || !plan.ClientReads || idleEnds
+			cs.faulty = plan.End != "local-close" || plan.SecondEnd != "" || !plan.ClientReads || idleEnds || plan.ReadDelayMs > 0 || plan.DeadlineFault != 0
 			s.Logf("dial %s", name)
 			endEvent := func(kind string) {
 				switch kind {
@@ -234,6 +281,9 @@ func runC16(t *testing.T, sci interface{}, keepLog bool) *hx.Outcome {
 					cs.client.Reset()
 				case "local-close":
 					if cs.sess != nil {
+						if cs.exits == 0 {
+							cs.closeReq = true
+						}
 						cs.sess.Close()
 						s.Logf("local close %s", name)
 					}
@@ -262,6 +312,10 @@ func runC16(t *testing.T, sci interface{}, keepLog bool) *hx.Outcome {
 			// client reader
 			if plan.ClientReads {
 				all = append(all, simrt.GoNamed(name+"/reader", func() {
+					if plan.ReadDelayMs > 0 {
+						simtime.Sleep(time.Duration(plan.ReadDelayMs) * time.Millisecond)
+						s.Count("late-reader")
+					}
 					buf := make([]byte, 16)
 					for {
 						n, err := cs.client.Read(buf)
@@ -281,6 +335,12 @@ func runC16(t *testing.T, sci interface{}, keepLog bool) *hx.Outcome {
 				s.Block(me, func() bool { return cs.sess != nil || cs.client.PeerClosed() || cs.client.Closed() }, "harness:session")
 				if cs.sess == nil {
 					return
+				}
+				switch plan.DeadlineFault {
+				case 1:
+					cs.client.Peer().FailWriteDeadlineN = 1
+				case 2:
+					cs.client.Peer().FailReadDeadlineN = 1
 				}
 				if plan.IdleMs > 0 {
 					simtime.Sleep(time.Duration(plan.IdleMs) * time.Millisecond)
@@ -332,6 +392,10 @@ func runC16(t *testing.T, sci interface{}, keepLog bool) *hx.Outcome {
 			}
 			if !cs.started {
 				s.Count("connection-refused-over-max")
+				if len(sc.Conns) <= int(sc.MaxConn) {
+					// no more connections than the maximum were ever made: none of them was surplus
+					s.Fail("non-surplus-connection-refused", "%s was closed without a session although only %d connection(s) were made and the maximum is %d", name, len(sc.Conns), sc.MaxConn)
+				}
 				continue
 			}
 			if !cs.plan.ClientReads {
@@ -368,7 +432,7 @@ func runC16(t *testing.T, sci interface{}, keepLog bool) *hx.Outcome {
 	}
 
 	cfg := sc.Knobs.Config(keepLog, 200000)
-	res := hx.RunSim(t, cfg, func(s *simrt.Sim) { s.OnQuiescent = observe }, main)
+	res := hx.RunSim(t, cfg, func(s *simrt.Sim) { s.OnQuiescent, s.OnAdvance = observe, advance }, main)
 	o := hx.FromResult(res)
 	if o.Class == "" && res.Stuck {
 		o.Class, o.Msg = "session-never-ends", "session loops, accept loop or clients never finished: "+hx.Unfinished(res)
@@ -414,9 +478,9 @@ func TestC16(t *testing.T) {
 		Run:         runC16,
 		Real:        []string{"stcp.Server (accept loop), stcp.SessionMgr, stcp.Session (loopSend, loopReceive, quit, recovery), syncx/pipe/q (simgen-transformed)", "io.ReadFull", "go.uber.org/atomic", "ulog/zap (silenced)"},
 		Stubs:       []string{"net (simnet: listener the harness dials, full-duplex bounded byte pipes, deadlines on the simulated clock, reset / peer close / temporary accept errors)", "time (simtime)", "sync (simsync)", "goroutine scheduling (simrt)"},
-		Rule: "scenario = max connections {1,2,3,8} x read/write timeouts x pipe buffer {8,64,4096} x 1-4 connections, each with 0-4 client frames (echo / swallow / handler error / handler panic), a reading or non-reading peer, 0-5 server Sends of 1-200 bytes, a terminating event (local Close, peer close, reset, silence -> timeout) after a drawn delay and optionally a second racing one, temporary accept errors x scheduler knobs/tape; " +
+		Rule: "scenario = max connections {1,2,3,8} x read/write timeouts x pipe buffer {8,64,4096} x 1-4 connections, each with 0-4 client frames (echo / swallow / handler error / handler panic), a reading, late-reading or non-reading peer, a handler of the manager's or of the session's own, 0-5 server Sends of 1-200 bytes, a terminating event (local Close, peer close, reset, silence -> timeout) after a drawn delay and optionally a second racing one, temporary accept errors x scheduler knobs/tape; " +
 			"non-trivial = >=2 tasks and >=1 switch; distinct = distinct event-log hash",
-		Probes:      []string{"clean-local-close", "connection-refused-over-max", "count-reached-max", "net-accept-error-injected", "net-read-timeout", "net-write-timeout", "net-reset", "idle-before-send", "net-close-returns-error", "session-started-directly"},
+		Probes:      []string{"clean-local-close", "connection-refused-over-max", "count-reached-max", "net-accept-error-injected", "net-read-timeout", "net-write-timeout", "net-reset", "idle-before-send", "net-close-returns-error", "session-started-directly", "session-with-own-handler", "late-reader", "net-set-write-deadline-fails", "net-set-read-deadline-fails"},
 		Assumptions: []string{"simnet close semantics: the peer reads what was written before the close, then EOF; a reset drops buffered data", "TLS, OS socket buffers and TCP half-close are out of scope"},
 	})
 }
